@@ -312,3 +312,50 @@ def canonical_time_fixed_point_{name}(h: int, m: int) -> bool:
 for _sign in ('+', '-'):
     for _lo, _hi in ((0, 4), (5, 9), (10, 14)):
         define(_TZC.format(sign=_sign, lo=_lo, hi=_hi, name=('minus' if _sign == '-' else 'plus') + '_%02d' % _lo), globals())
+
+
+# --- added after round-2 seeded changes ---------------------------------------------------------------------------------------------
+
+YEARS = ('2000', '1900', '10000', '10003', '10004', '12000', '10100', '-0001', '0000', '-0004')
+from decimal import Decimal as _D  # noqa: E402
+T2.update(parse_all({'date_castable': '$s castable as xs:date', 'dt_castable': '$s castable as xs:dateTime', 'date_ctor': 'string(xs:date($s))',
+                     'dec_str': 'string($d)', 'dec_rt': 'xs:decimal(string($d)) eq $d', 'dec_castable': 'string($d) castable as xs:decimal'}))
+
+
+def _leap(y):
+    return y % 4 == 0 and (y % 100 != 0 or y % 400 == 0)
+
+
+@ob(budget=120, bound='lexical forms <year>-02-29 and <year>-02-30 for 10 years incl. 5-digit and year-zero forms (chosen by the solver): castable/constructor agree with the proleptic Gregorian calendar (XSD 1.1 parser)',
+    funcs=['elementpath/datatypes/datetime.py:AbstractDateTime.__init__/fromstring', 'castable as'])
+def leap_day_lexical(yi: int) -> bool:
+    """
+    pre: 0 <= yi <= 9
+    post: _
+    """
+    ys = YEARS[yi]
+    leap = _leap(int(ys))       # XSD 1.1: 0000 is 1 BCE, -0001 is 2 BCE (astronomical numbering)
+    s = ys + '-02-29'
+    P11 = PARSER11
+    got = P11['date_castable'].evaluate(XPathContext(item=1, variables={'s': s}))
+    got2 = P11['dt_castable'].evaluate(XPathContext(item=1, variables={'s': s + 'T00:00:00'}))
+    got30 = P11['date_castable'].evaluate(XPathContext(item=1, variables={'s': ys + '-02-30'}))
+    return got == leap and got2 == leap and got30 is False
+
+
+from elementpath.xpath31 import XPath31Parser as _P31  # noqa: E402
+_p11 = _P31(xsd_version='1.1')
+PARSER11 = {k: _p11.parse(v) for k, v in {'date_castable': '$s castable as xs:date', 'dt_castable': '$s castable as xs:dateTime'}.items()}
+SCALES = tuple(_D(10) ** -p for p in range(0, 10))
+
+
+@ob(budget=60, tbudget=600, kind='hunt', bound='xs:decimal k * 10^-p, k in [-99, 99], p in 0..9 (chosen by the solver): string() is in the xs:decimal lexical space (no exponent) and casts back to an equal value (Decimal: bug-hunting)',
+    funcs=['elementpath/xpath_tokens/base.py:XPathToken.string_value', 'elementpath/datatypes/proxies.py:DecimalProxy'])
+def decimal_string_roundtrip(k: int, p: int) -> bool:
+    """
+    pre: -99 <= k <= 99 and 0 <= p <= 9
+    post: _
+    """
+    d = _D(k) * SCALES[p]
+    s = ev(T2['dec_str'], d=d)[0]
+    return 'E' not in s and 'e' not in s and ev(T2['dec_castable'], d=d) == [True] and ev(T2['dec_rt'], d=d) == [True]
